@@ -20,7 +20,7 @@ POOL = {
     "PA": ("*w.params[U(I, 6)]", 6), "SU": ("*w.substs[U(I, 6)]", 6), "CO": ("*w.constructions[U(I, 6)]", 6),
     "TM": ("*w.templates[U(I, 6)]", 6), "B": ("*w.blocks[U(I, 6)]", 6), "IN": ("*w.initializers[U(I, 6)]", 6),
     "SP": ("*w.species[U(I, 6)]", 6), "Ts": ("*w.type_seqs[U(I, 6)]", 6), "Tw": ("*w.houses[U(I, 6)]", 6),
-    "w": ("ipr::util::word_view(w.words[U(I, 12)])", 12),
+    "w": ("scratch_word(w.words[U(I, 12)])", 12),      # every spelling goes through ONE reused token buffer, as in a lexer
 }
 VALUE = {
     "q": "ipr::Qualifiers(U(I, 7) + 1)", "lvl": "ipr::Mapping_level{ std::size_t(U(I, 9) + 1) }", "bm": "ipr::Binding_mode(U(I, 3))",
